@@ -83,6 +83,8 @@ static void walk_cache(void)
          int N = ((m->eBands[i + 1] - m->eBands[i]) << (lm + 1)) >> 1;
          const unsigned char *c;
          if (idx < 0 || N < 2) continue;
+         /* an index or count that points outside cache.bits is exported as it is (TLC rejects the table) but not followed */
+         if (idx >= m->cache.size || idx + m->cache.bits[idx] >= m->cache.size) continue;
          c = m->cache.bits + idx;
          for (j = 1; j <= c[0]; j++) {
             int K = get_pulses(j), dup = 0;
@@ -189,11 +191,14 @@ static void cmd_sweep(uint32_t vmax, int part, int nparts)
    }
 }
 
+/* every index of every (N,K) with 2<=N<=nmax, K<=13, V<=vex, reachable or not (the exhaustive set of the
+   model's Bijection theorem); K<=13 and N<=14 keep every U(a,b) the coder reads inside rows/columns <= 14 */
 static void cmd_small(uint32_t vex, int nmax)
 {
    int n, k; uint32_t i;
+   if (nmax > 14) nmax = 14;
    for (n = 2; n <= nmax; n++)
-      for (k = 1; k <= KDIM - 2 && hV[n][k] <= vex; k++)
+      for (k = 1; k <= 13 && hV[n][k] <= vex; k++)
          for (i = 0; i < hV[n][k]; i++) pvq_emit(n, k, i, hV[n][k]);
 }
 
@@ -243,6 +248,7 @@ static void enc_interval(const ec_enc *e, int *fl, int *fs)
 static void lap_pair(unsigned fs0, int decay)
 {
    static int rv[32768]; int fm, vmin = 0, vmax = 0, v, first = 1;
+   hx_arm(300);      /* a degenerate parameter pair can make the range coder spin: logged as Hang, rc 97 */
    for (fm = 0; fm < 32768; fm++) {
       ec_dec d; dec_at(&d, fm);
       rv[fm] = ec_laplace_decode(&d, fs0, decay);
